@@ -50,9 +50,12 @@ def _same(x, y):
 
 
 class Recorder:
-    def __init__(self, module, names, limit=40000, every=1):
+    def __init__(self, module, names, limit=40000, every=1, again_every=5):
         self.module, self.names = module, [n for n in names if hasattr(module, n)]
         self.limit, self.every = limit, max(1, every)
+        self.again_every = again_every
+        self.twice = []         # (name, args, kwargs, first, second): asked twice in a row, answers differ
+        self.asked_twice = 0
         self.calls = []
         self.seen = 0
         self.saved = {}
@@ -79,7 +82,14 @@ class Recorder:
                             self.calls.append((name, orig, a0, kw0, ('raises', type(e).__name__, None)))
                         raise
                     if keep:
-                        self.calls.append((name, orig, a0, kw0, ('returns', type(r).__name__, _freeze(r))))
+                        first = ('returns', type(r).__name__, _freeze(r))
+                        self.calls.append((name, orig, a0, kw0, first))
+                        if self.again_every and len(self.calls) % self.again_every == 0:
+                            # the very same question once more, immediately (a "last call" memo would answer it)
+                            self.asked_twice += 1
+                            second = _outcome(orig, _snap(a0), {k: _snap(v) for k, v in kw0.items()})
+                            if not _same(first, second) and len(self.twice) < 20:
+                                self.twice.append((name, a0, kw0, first, second))
                     return r
                 return wrapper
             setattr(self.module, name, make(name, orig))
@@ -94,6 +104,12 @@ class Recorder:
         """the recorded calls once more, last first"""
         n = 0
         bad = 0
+        for name, a, kw, first, second in self.twice:
+            bad += 1
+            ctx.violation({'kind': 'answer-changes-when-asked-twice-in-a-row', 'fn': name, 'first': first[:2], 'second': second[:2]},
+                          {'function': name, 'args': repr(a)[:600], 'kwargs': repr(kw)[:300],
+                           'first_answer': repr(first)[:600], 'second_answer': repr(second)[:600]},
+                          '%s%s answered %s and, asked again at once, %s' % (name, repr(a)[:200], repr(first)[:160], repr(second)[:160]))
         for name, fn, a, kw, first in reversed(self.calls):
             try:
                 a1, kw1 = _snap(a), {k: _snap(v) for k, v in kw.items()}
@@ -109,6 +125,6 @@ class Recorder:
                               '%s%s answered %s the first time and %s when the same questions were asked again in reverse order' % (
                                   name, repr(a)[:200], repr(first)[:160], repr(second)[:160]))
         ctx.cov['evaluations'] += n
-        ctx.stage('order-independence-' + label, calls_recorded=len(self.calls), calls_seen=self.seen, replayed=n, differing=bad)
+        ctx.stage('order-independence-' + label, calls_recorded=len(self.calls), calls_seen=self.seen, replayed=n, asked_twice_in_a_row=self.asked_twice, differing=bad)
         self.calls = []
         return bad
